@@ -83,3 +83,17 @@ package main
 //@   ensures oneline: len(errSummary) == old(len(errSummary)) + ite(result.Success, 0, 1)
 //@   ensures kept: forall(k, 0, old(len(errSummary)), errSummary[k] == old(errSummary[k]))
 //@   ensures returned: len(result0) == len(errSummary)
+
+// C17: the batch lines the simulator numbers are exactly the lines bufio.Scanner yields (LF or CRLF endings stripped by
+// the scanner) whose length is not zero, in file order - the same notion of "non-empty line" the calculator's line
+// count is checked against (bounded stand-in C17/bounded:lineCounter). kept counts the scanner lines with len > 0.
+//@ region main#batchread from "scanner := bufio.NewScanner(file)" to "for scanner.Scan() {"
+//@   serves C17
+//@   ghost var kept int = 0
+//@   after stmt "line := scanner.Text()": ghost kept = kept + ite(len(line) > 0, 1, 0)
+//@   ensures count: len(configLines) == old(len(configLines)) + kept
+//@   ensures prefix: forall(k, 0, old(len(configLines)), configLines[k] == old(configLines[k]))
+//@ loop main@"for scanner.Scan() { line := scanner.Text()"
+//@   invariant count: len(configLines) == pre(len(configLines)) + kept && kept >= 0
+//@   invariant prefix: forall(k, 0, pre(len(configLines)), configLines[k] == pre(configLines[k]))
+//@   invariant nonempty: forall(k, pre(len(configLines)), len(configLines), len(configLines[k]) > 0)
